@@ -11,13 +11,13 @@ for d in glob.glob('/verif/seeded/*/meta.json'):
     cls='first' if det.startswith('caught on') or det.startswith('caught first') else ('pre' if det.startswith('caught') else 'miss')
     mm=re.match(r"(C\d+)-adv(?:(\d)-)?(\d)$",m['id']); rnd=int(mm.group(2) or 1)
     rows[m['property']][(rnd,cls)]+=1
-hdr="| property | round 1 (first / pre / missed) | round 2 | round 3 | round 4 |\n|---|---|---|---|---|\n"
+hdr="| property | round 1 (first / pre / missed) | round 2 | round 3 | round 4 | round 5 |\n|---|---|---|---|---|---|\n"
 body=""
 for P in sorted(rows):
     cells=[]
-    for r in (1,2,3,4):
+    for r in (1,2,3,4,5):
         c=rows[P]; cells.append(f"{c[(r,'first')]} / {c[(r,'pre')]} / {c[(r,'miss')]}")
-    body+=f"| {P} | {cells[0]} | {cells[1]} | {cells[2]} | {cells[3] if sum(rows[P][(4,c)] for c in ('first','pre','miss')) else '-'} |\n"
+    body+=f"| {P} | {cells[0]} | {cells[1]} | {cells[2]} | {cells[3] if sum(rows[P][(4,c)] for c in ('first','pre','miss')) else '-'} | {cells[4] if sum(rows[P][(5,c)] for c in ('first','pre','miss')) else '-'} |\n"
 new=f"""### 12.5 Seeded breaking changes (`seeded/<id>/`: patch.diff, demo.cpp, notes.md, meta.json) and which checks catch them
 
 Produced by independent adversary sub-agents that were given only the property text, a scratch worktree of /repo and - from round 2 on - the
